@@ -283,7 +283,10 @@ REAL = [
 REAL_BY_NAME = {"%s/%s" % (b, f.__name__[9:]): (b, f) for b, f in REAL}
 
 
-def _do_dump(base, obj, path):
+def _do_dump(base, obj, path, dest="str"):
+    if dest == "pathlike":
+        import pathlib
+        path = pathlib.Path(path)        # a destination given as os.PathLike (whether it is supported is not C18's business)
     dumper = get_base(base)[1]
     if dumper:
         dumper(obj, path)
@@ -313,7 +316,7 @@ def trace_dump(base):
         shutil.rmtree(tmp, ignore_errors=True)
 
 
-def eval_fault(base, i, pre_existing, corrupt=None):
+def eval_fault(base, i, pre_existing, corrupt=None, dest="str"):
     """Dump with the i-th validator invocation failing (or with a really invalid nested value); report what happened to the path.
     pre_existing: False (no file), True (previous good copy), "hardlinked" (previous good copy that has a second name),
     "own" (previous good copy written - twice - by the same object whose next dump fails)."""
@@ -349,7 +352,7 @@ def eval_fault(base, i, pre_existing, corrupt=None):
         Ctl.active, Ctl.count, Ctl.fail_at, Ctl.log = True, 0, i, []
         raised = None
         try:
-            _do_dump(base, obj, path)
+            _do_dump(base, obj, path, dest)
         except Exception as exc:                                       # noqa
             raised = exc_name(exc)
         finally:
@@ -376,6 +379,96 @@ def eval_fault(base, i, pre_existing, corrupt=None):
         shutil.rmtree(tmp, ignore_errors=True)
 
 
+def eval_tree_writer(pre_existing, bad):
+    """ExtraFiles.dump_for_tree - the manifest's second writer - handed a PATH (whether it accepts one is not C18's business)
+    for a manifest holding an entry the file format cannot represent: if the call fails, the path keeps its pre-state."""
+    tmp = tempfile.mkdtemp(prefix="c18-")
+    try:
+        path = os.path.join(tmp, "extra_files.json")
+        before = None
+        if pre_existing:
+            with open(path, "w") as f:
+                MISC.extra_files().dump_for_tree(f, "Server", "x86_64", "Server/x86_64/os")
+            with open(path, "rb") as f:
+                before = f.read()
+        obj = MISC.extra_files()
+        obj.extra_files["Server"]["x86_64"][1][bad[0]] = {"bytes": b"\x00\x01", "object": object(), "set": {1}}[bad[1]]
+        raised = None
+        try:
+            obj.dump_for_tree(path, "Server", "x86_64", "Server/x86_64/os")
+        except Exception as exc:                                       # noqa
+            raised = exc_name(exc)
+        exists = os.path.exists(path)
+        after = open(path, "rb").read() if exists else None
+        return {"raised": raised, "failed_in": None, "existed_before": before is not None, "exists_after": exists,
+                "bytes_unchanged": (before == after) if (before is not None and exists) else None,
+                "size_after": len(after) if after is not None else None, "still_the_same_hardlinked_file": None,
+                "other_files": sorted(x for x in os.listdir(tmp) if x != "extra_files.json")}
+    finally:
+        shutil.rmtree(tmp, ignore_errors=True)
+
+
+LOCALE_DRIVER = r"""
+import json, locale, os, shutil, sys, tempfile
+sys.path.insert(0, sys.argv[1]); sys.path.insert(0, sys.argv[2])
+from mc.core.runner import bind_repo
+bind_repo()
+from mc.build import ci as CI, ti as TI, misc as MISC
+text = "N\u00e4me \u65e5\u672c"
+def ti_obj(t):
+    return TI.build(TI.apply_spec(TI.seed_flat(), ["rel", "name", t]))
+def di_obj(t):
+    d = MISC.discinfo(); d.description = t; return d
+def ci_obj(t):
+    return CI.build(CI.apply_spec(CI.seed_flat(), ["rel", "name", t]))
+out = {"encoding": locale.getpreferredencoding(False)}
+for fmt, mk, dump in (("treeinfo", ti_obj, lambda o, p: o.dump(p)), ("discinfo", di_obj, lambda o, p: o.dump(p)),
+                      ("composeinfo", ci_obj, lambda o, p: o.dump(p))):
+    out[fmt] = {}
+    for pre in ("absent", "existing"):
+        tmp = tempfile.mkdtemp(prefix="c18-lc-")
+        try:
+            path = os.path.join(tmp, "metadata.out")
+            before = None
+            if pre == "existing":
+                dump(mk("Plain name"), path)
+                before = open(path, "rb").read()
+            raised = None
+            try:
+                dump(mk(text), path)
+            except Exception as exc:
+                raised = type(exc).__name__
+            exists = os.path.exists(path)
+            after = open(path, "rb").read() if exists else None
+            out[fmt][pre] = {"raised": raised, "existed_before": before is not None, "exists_after": exists,
+                             "bytes_unchanged": (before == after) if (before is not None and exists) else None,
+                             "size_after": len(after) if after is not None else None,
+                             "other_files": sorted(x for x in os.listdir(tmp) if x != "metadata.out"),
+                             "still_the_same_hardlinked_file": None}
+        finally:
+            shutil.rmtree(tmp, ignore_errors=True)
+print("LOCALE " + json.dumps(out))
+"""
+
+
+def eval_locale(lc):
+    """valid objects with non-ASCII text dumped to a PATH in an interpreter whose locale encoding is `lc` (e.g. C = ASCII):
+    the file encoding may be unable to hold the text - then the dump fails, and the path must keep its pre-state"""
+    import json
+    import subprocess
+    import sys
+    from mc.core.runner import REPO, VERIF
+    env = dict(os.environ, PYTHONDONTWRITEBYTECODE="1")
+    env.update({"PYTHONUTF8": "0", "PYTHONCOERCECLOCALE": "0", "LC_ALL": lc, "LANG": lc})
+    env.pop("LC_CTYPE", None)
+    p = subprocess.run([sys.executable, "-X", "utf8=0", "-c", LOCALE_DRIVER, REPO, VERIF], env=env, stdout=subprocess.PIPE,
+                       stderr=subprocess.PIPE, universal_newlines=True, encoding="ascii", errors="backslashreplace", timeout=300)
+    for line in p.stdout.splitlines():
+        if line.startswith("LOCALE "):
+            return json.loads(line[7:])
+    raise RuntimeError("locale driver failed: %s" % p.stderr[-1200:])
+
+
 def untouched(o):
     if o["other_files"] or o.get("still_the_same_hardlinked_file") is False:
         return False
@@ -386,7 +479,7 @@ def untouched(o):
 
 def units(tier, seed):
     bases = sorted(BASES)
-    us = [("faults", b) for b in bases] + [("real", n) for n in sorted(REAL_BY_NAME)]
+    us = [("faults", b) for b in bases] + [("real", n) for n in sorted(REAL_BY_NAME)] + [("tree-writer",), ("locale", "C")]
     if tier == "thorough":
         # every state within one edit of every seed is a base object, too (its dump has its own sequence of validator calls)
         for fmt, mod in (("ci", CI), ("im", IM), ("ti", TI)):
@@ -400,6 +493,38 @@ def units(tier, seed):
 
 
 def run_unit(unit, acc):
+    if unit[0] == "tree-writer":
+        for pre in (False, True):
+            for bad in (["checksums", "bytes"], ["size", "object"], ["checksums", "set"]):
+                o = eval_tree_writer(pre, bad)
+                acc.ev()
+                acc.nontriv(("tree-writer", pre, tuple(bad)))
+                if o["raised"] is None:
+                    acc.outcome("tree-writer:written")
+                elif not untouched(o):
+                    acc.violation("destination-touched:dump_for_tree", {"kind": "tree-writer", "pre_existing": pre, "bad": bad}, o,
+                                  "ExtraFiles.dump_for_tree(path) of a manifest holding an entry the format cannot represent (%s) raised %s and "
+                                  "the destination was %s" % (bad, o["raised"], ("left with %s bytes instead of the previous copy" % o["size_after"]) if pre else "created"))
+                else:
+                    acc.outcome("tree-writer:failed:untouched")
+        return
+    if unit[0] == "locale":
+        res = eval_locale(unit[1])
+        acc.extra["ascii_locale_encoding"] = res["encoding"]
+        for fmt in ("treeinfo", "discinfo", "composeinfo"):
+            for pre in ("absent", "existing"):
+                o = res[fmt][pre]
+                acc.ev()
+                acc.nontriv(("locale", fmt, pre))
+                if o["raised"] is None:
+                    acc.outcome("locale:written")
+                elif not untouched(o):
+                    acc.violation("destination-touched:locale", {"kind": "locale", "lc": unit[1], "fmt": fmt, "pre": pre}, o,
+                                  "%s with non-ASCII text dumped to a path under locale encoding %s raised %s and the destination was %s"
+                                  % (fmt, res["encoding"], o["raised"], ("left with %s bytes instead of the previous copy" % o["size_after"]) if pre == "existing" else "created"))
+                else:
+                    acc.outcome("locale:failed:untouched")
+        return
     if unit[0] == "faults-univ":
         import json
         _, fmt, name, edits = unit
@@ -450,10 +575,10 @@ def run_unit(unit, acc):
     else:
         name = unit[1]
         base = REAL_BY_NAME[name][0]
-        for pre in (False, True, "hardlinked", "own"):
-            o = eval_fault(base, None, pre, corrupt=name)
+        for pre, dest in [(p, "str") for p in (False, True, "hardlinked", "own")] + [(False, "pathlike"), (True, "pathlike")]:
+            o = eval_fault(base, None, pre, corrupt=name, dest=dest)
             acc.ev()
-            case = {"kind": "real", "name": name, "pre_existing": pre}
+            case = {"kind": "real", "name": name, "pre_existing": pre, "dest": dest}
             if o["raised"] is None:
                 # not C18's business whether this value is refused (that is C06); nothing failed, nothing to judge
                 acc.outcome("real-invalid:accepted")
@@ -470,7 +595,11 @@ def run_unit(unit, acc):
 def replay(case):
     if case["kind"] == "fault":
         return eval_fault(case["base"], case["i"], case["pre_existing"])
-    return eval_fault(REAL_BY_NAME[case["name"]][0], None, case["pre_existing"], corrupt=case["name"])
+    if case["kind"] == "tree-writer":
+        return eval_tree_writer(case["pre_existing"], case["bad"])
+    if case["kind"] == "locale":
+        return eval_locale(case["lc"])[case["fmt"]][case["pre"]]
+    return eval_fault(REAL_BY_NAME[case["name"]][0], None, case["pre_existing"], corrupt=case["name"], dest=case.get("dest", "str"))
 
 
 KNOWN = {}
